@@ -143,7 +143,12 @@ func RunOnce(t *testing.T, fam *Family, sc *Scn, sched *SchedSpec, trace bool) *
 				res.HarnessErr = "panic outside the simulation: " + msg
 			}
 		}()
-		synctest.Test(t, func(t *testing.T) {
+		body := func(bubble bool) {
+			var sleepHook func(time.Duration)
+			var waitHook func()
+			if bubble {
+				sleepHook, waitHook = time.Sleep, synctest.Wait
+			}
 			maxSteps := sched.MaxSteps
 			if maxSteps == 0 {
 				maxSteps = fam.MaxSteps
@@ -154,11 +159,15 @@ func RunOnce(t *testing.T, fam *Family, sc *Scn, sched *SchedSpec, trace bool) *
 				MapPermute:   sched.MapPermute,
 				Stall:        sched.Stall,
 				Strategy:     makeStrategy(sched),
-				SleepHook:    time.Sleep,
-				WaitHook:     synctest.Wait,
+				SleepHook:    sleepHook,
+				WaitHook:     waitHook,
 				Trace:        trace,
 			}
-			k := simrt.New(cfg, time.Now())
+			epoch := time.Now()
+			if !bubble {
+				epoch = simtime.BubbleEpoch
+			}
+			k := simrt.New(cfg, epoch)
 			env := newEnv(k, sc)
 			restore := env.installHooks()
 			defer restore()
@@ -181,7 +190,14 @@ func RunOnce(t *testing.T, fam *Family, sc *Scn, sched *SchedSpec, trace bool) *
 					res.HarnessErr = fmt.Sprintf("harness actor %s panicked: %v\n%s", esc.Site, esc.Value, esc.Stack)
 				}
 			}
-		})
+		}
+		if simrt.RaceMode {
+			// controlled-race mode: actors spin on a plain word (not durably blocked), so no synctest
+			// bubble; the clock is the kernel's event heap only
+			body(false)
+			return
+		}
+		synctest.Test(t, func(t *testing.T) { body(true) })
 	}()
 	return res
 }
